@@ -305,3 +305,4 @@ def delegations(P, R):
         elif o.rule == 'C06.d' and 'propagate' in (o.construct or ''):
             R._add('C13.d', (o.path, o.site.split('::')[-1]), None, o.status, 'Dask total_bounds is reduced from cached partition bounds: ' + o.detail, construct=o.construct)
     R.floor('C13.d', 'Dask total_bounds obligations', k, 4)
+    common.forward(P, R, 'C03', ['C03.c', 'C03.d'], 'C13.d', 'the spatial index reports the same total_bounds: every tree node is the union of its valid children, NaN rows never poison it', floor=4)
